@@ -59,7 +59,7 @@ def make(i, base_seed, tier, lite=False):
            "backend": "busio" if lite else rng.choice(["spidev", "busio"]),
            "pl": [rng.choice([1, 5, 8, 16, 32, rng.randint(1, 32)]) for _ in range(6)],
            "pipes": sorted(rng.sample(range(6), rng.randint(1, 4)) + [1]), "ackpl": dyn and rng.random() < 0.5,
-           "arc": rng.choice([0, 1, 2, 3, 5])}
+           "arc": rng.choice([0, 1, 2, 3, 5, 7, 8, 9, 12, 15])}
     if lite:
         scn["pl"] = [scn["pl"][0]] * 6
     scn["pipes"] = sorted(set(scn["pipes"]))
